@@ -9,6 +9,12 @@ import OxyModel.Model.CBreaker
     start <id>                    -> pass <state> | fallback <state>
     finish <id> <code> [q=v,v,…]  -> done <code> <state>        (q: oracle LatencyAtQuantileMS values)
     burst <n> <step_ns>           -> burst <run-length outcomes> <state>   (n × (arrive; clock += step))
+    park-warn <n>                 -> ok        (the next n requests arriving while the breaker is not in standby park in its Warn call)
+    start <id>                    -> parked    (arrived, undecided; at most one at a time)
+    unpark <id>                   -> pass <state> | fallback <state>      (decided now: the `arrive` step happens here)
+    finish <id> <code> …          -> unparked <pass|fallback> <state> done <code> <state>   while a request is parked: the breaker
+                                     logs under its lock, so the parked request is decided before the completion can evaluate
+    cfg … fx=0                    -> `effects` prints `effects none` (no side effects registered)
     state                         -> standby | tripped until=<ns> | recovering until=<ns>
     effects                       -> effects tripped=<n> standby=<n>
 -/
@@ -66,6 +72,9 @@ structure St where
   brk : Brk
   now : Nat                 -- protocol time: ns since hx.Base
   inflight : List String
+  armed : Nat := 0
+  parked : Option String := none
+  fx : Bool := true
 
 def abs (t : Nat) : Nat := t + RCnt.baseSinceZeroNs
 
@@ -89,7 +98,7 @@ def init (f : List String) : Option St × String :=
     | some (e, []) =>
       let c : Cfg := ⟨Driver.kvNat f "fb" 0, Driver.kvNat f "rec" 0, Driver.kvNat f "cp" 0, e⟩
       match CB.new c with
-      | some b => (some ⟨c, b, 0, []⟩, "ok")
+      | some b => (some { cfg := c, brk := b, now := 0, inflight := [], fx := Driver.kv f "fx" != some "0" }, "ok")
       | none => (none, "err")
     | _ => (none, "bad-cfg")
 
@@ -111,27 +120,52 @@ def step (s : St) : List String → St × String
     match d.toNat? with
     | some d => ({ s with now := s.now + d }, "ok")
     | none => (s, "bad-op")
+  | ["park-warn", n] =>
+    match n.toNat? with
+    | some n => ({ s with armed := n }, "ok")
+    | none => (s, "bad-op")
   | ["start", id] =>
-    if s.inflight.contains id then (s, "bad-op") else
+    if s.inflight.contains id || s.parked.isSome then (s, "bad-op") else
+    if s.armed > 0 && s.brk.state != .standby then
+      ({ s with armed := s.armed - 1, parked := some id }, "parked")
+    else
     let r := arrive s.cfg s.brk (abs s.now)
     match r.1 with
     | .pass => ({ s with brk := r.2, inflight := id :: s.inflight }, "pass " ++ stateStr r.2)
     | .fallback => ({ s with brk := r.2 }, "fallback " ++ stateStr r.2)
+  | ["unpark", id] =>
+    if s.parked != some id then (s, "bad-op") else
+    let r := arrive s.cfg s.brk (abs s.now)
+    match r.1 with
+    | .pass => ({ s with brk := r.2, inflight := id :: s.inflight, parked := none }, "pass " ++ stateStr r.2)
+    | .fallback => ({ s with brk := r.2, parked := none }, "fallback " ++ stateStr r.2)
   | "finish" :: id :: code :: rest =>
     match code.toNat? with
     | none => (s, "bad-op")
     | some code =>
       if !s.inflight.contains id then (s, "bad-op") else
+      -- a parked request holds the breaker's lock (the Warn is logged under it): it is decided first
+      let (s, pre) := match s.parked with
+        | none => (s, "")
+        | some pid =>
+          let r := arrive s.cfg s.brk (abs s.now)
+          match r.1 with
+          | .pass => ({ s with brk := r.2, inflight := pid :: s.inflight, parked := none }, "unparked pass " ++ stateStr r.2 ++ " ")
+          | .fallback => ({ s with brk := r.2, parked := none }, "unparked fallback " ++ stateStr r.2 ++ " ")
       let r := complete s.cfg s.brk (abs s.now) code (oracle s.cfg rest)
-      ({ s with brk := r.1, inflight := s.inflight.erase id }, "done " ++ toString code ++ " " ++ stateStr r.1)
+      ({ s with brk := r.1, inflight := s.inflight.erase id }, pre ++ "done " ++ toString code ++ " " ++ stateStr r.1)
   | ["burst", n, d] =>
     match n.toNat?, d.toNat? with
     | some n, some d =>
+      if s.parked.isSome || s.armed > 0 then (s, "bad-op") else
       let r := burst s.cfg n d s.brk s.now ' ' 0 ""
       ({ s with brk := r.1, now := r.2.1 }, "burst " ++ r.2.2 ++ " " ++ stateStr r.1)
     | _, _ => (s, "bad-op")
-  | ["state"] => (s, stateStr s.brk)
-  | ["effects"] => (s, "effects tripped=" ++ toString s.brk.tripped ++ " standby=" ++ toString s.brk.standbys)
+  | ["state"] => if s.parked.isSome then (s, "bad-op") else (s, stateStr s.brk)
+  | ["effects"] =>
+    if s.parked.isSome then (s, "bad-op") else
+    if !s.fx then (s, "effects none") else
+    (s, "effects tripped=" ++ toString s.brk.tripped ++ " standby=" ++ toString s.brk.standbys)
   | _ => (s, "bad-op")
 
 def machine : Driver.Machine (Option St) where
